@@ -104,6 +104,38 @@ PROPS["C19"] = dict(
     standins=["C19"], level="other",
     level_note="Term.__hash__/__eq__ rest on the C07 contracts; Unit "
                "eq/hash and table types are recorded known findings")
+_ER = [MN + "ExchangeRate." + n for n in
+       ("__init__", "inverted", "__eq__", "__hash__", "__mul__", "__rmul__",
+        "__truediv__", "__rtruediv__")]
+PROPS["C09"] = dict(functions=_ER[:7], standins=["C09"],
+                    frame=["_unit_multiple", "_term_amount", "_unit_currency",
+                           "_term_currency"])
+PROPS["C10"] = dict(functions=[_ER[4], _ER[5], _ER[7],
+                               Q + "_amnt_and_unit_from_term",
+                               Q + "Quantity.__new__"], standins=["C10"])
+PROPS["C11"] = dict(
+    functions=[MN + "MoneyConverter." + n for n in
+               ("__init__", "update", "get_rate", "__call__")] + [_ER[0], _ER[1]],
+    standins=["C11"], level="other",
+    level_note="string spellings of periods are bounded; get_rate(X, X) is a "
+               "recorded known finding (F4)",
+    frame=["_rate_dict", "_rate_dict.update", "_type_of_validity",
+           "_base_currency"])
+PROPS["C08"] = dict(
+    functions=[MN + "MoneyMeta.new_unit", MN + "MoneyMeta.register_currency",
+               "quantity.money.currencies:get_currency_info",
+               Q + "Unit._get_factor", Q + "Quantity.equiv_amount",
+               Q + "Quantity.__add__", Q + "Quantity.__sub__",
+               Q + "Quantity.__truediv__", Q + "Quantity._compare",
+               Q + "Quantity.__eq__", Q + "Quantity.convert",
+               Q + "Unit.__truediv__", Q + "Unit.__mul__",
+               Q + "QuantityMeta.get_unit_by_symbol"],
+    standins=["C08"], frame=["_smallest_fraction", "_currency_dict"])
+PROPS["C05"]["functions"] += [_ER[4], _ER[7]]
+PROPS["C16"]["functions"] += [MN + "MoneyMeta.new_unit",
+                              MN + "MoneyMeta.register_currency",
+                              MN + "MoneyConverter.update"]
+PROPS["C19"]["functions"] += [_ER[2], _ER[3]]
 PROPS["C05"]["functions"] += _UNIT_ALG[:5] + _QTY_ALG
 
 ALL_IDS = [f"C{i:02d}" for i in range(1, 21)]
